@@ -117,6 +117,32 @@ inline void report(const std::string &sig, const std::string &replay, const std:
     printf("VIOLATED %s :: %s\n", sig.c_str(), detail.c_str());
 }
 
+// ---------------------------------------------------------------- cheap per-shard counters
+struct Counters
+{
+  long long states = 0, transitions = 0, violating = 0, len[8] = {0, 0, 0, 0, 0, 0, 0, 0};
+};
+inline Counters &counters()
+{
+  static Counters c;
+  return c;
+}
+inline void counters_flush()
+{
+  Counters &c = counters();
+  if (c.states) {
+    vr::stat("states", c.states);
+    vr::stat("traces", c.states);
+    vr::stat("transitions", c.transitions);
+  }
+  if (c.violating)
+    vr::stat("violating_histories", c.violating);
+  for (int i = 0; i < 8; i++)
+    if (c.len[i])
+      vr::stat("histories_len" + std::to_string(i), c.len[i]);
+  c = Counters();
+}
+
 // ---------------------------------------------------------------- partial reports of dying shards
 // vr::run_sharded merges a child's report only when the child ends normally.  A sanitizer abort
 // goes through the sanitizer's Die(), which calls this callback first: the child's counts,
@@ -131,15 +157,22 @@ inline int &partial_shard()
   static int s = -1;
   return s;
 }
+inline long long &partial_resume()
+{
+  static long long r = -1;
+  return r;
+}
 inline void write_partial()
 {
   if (partial_dir().empty() || partial_shard() < 0)
     return;
   char p[256];
-  snprintf(p, sizeof p, "%s/part-%d-%d", partial_dir().c_str(), partial_shard(), (int)getpid());
+  // unique per (shard, restart): the resume index strictly increases with every restart (pids can repeat)
+  snprintf(p, sizeof p, "%s/part-%d-%lld", partial_dir().c_str(), partial_shard(), partial_resume());
   FILE *f = fopen(p, "w");
   if (!f)
     return;
+  counters_flush();
   for (auto h : vr::S().outcomes)
     fprintf(f, "@OUT %llx\n", (unsigned long long)h);
   for (auto &kv : vr::S().stats)
@@ -170,9 +203,10 @@ inline void partial_setup()
   signal(SIGABRT, on_sigabrt);  // std::terminate / glibc abort do not go through Die()
 }
 // child, first thing in a shard body
-inline void partial_enter(int shard)
+inline void partial_enter(int shard, long long resume_after)
 {
   partial_shard() = shard;
+  partial_resume() = resume_after;
 }
 // parent, after run_sharded
 inline void partial_merge()
@@ -220,6 +254,24 @@ inline void reexec_symbolized(char **argv)
   setenv("ASAN_OPTIONS", o.c_str(), 1);
   setenv("C09_REEXEC", "1", 1);
   execv("/proc/self/exe", argv);
+}
+
+// Two-level sharding: vr::run_sharded handles a dead child (waitpid, read the report, fork the
+// restart) serially in the parent, ~3 ms per crashed history.  With tens of thousands of
+// crashing histories that serial part dominates, so 16 supervisor processes (which never touch
+// rkcommon and never die) each run vr::run_sharded over their share of the shards.
+inline void run_sharded_2level(int n, const std::function<void(int, long long)> &body, int nsuper = 16)
+{
+  if (n <= 0)
+    return;
+  if (nsuper > n)
+    nsuper = n;
+  vr::run_sharded(nsuper, [&](int sup, long long) {
+    std::vector<int> mine;
+    for (int i = sup; i < n; i += nsuper)
+      mine.push_back(i);
+    vr::run_sharded((int)mine.size(), [&](int k, long long resume_after) { body(mine[k], resume_after); }, 1);
+  }, nsuper);
 }
 
 inline size_t heap_now()
